@@ -192,6 +192,36 @@ theorem C19_upsert (p : Mode) (s : St) (hi : Inv p s) (m : Mode) (mask : Option 
                   exact absurd hid' (find_none habs x hx)
           · simp [updateMode, hg, hv, hrs, habs, hc] at hnew
 
+/-- **C19_delete_options.** What the write options of `Model.DeleteMode` (`WithExpectedValue`, `WithExpectedCheck`
+with ANY check function) do, in every state: for an id that is not stored the preconditions are not consulted —
+the answer is the one without options (NotFound, or success with allow-missing: the delete clause of the property
+holds whatever else the caller passes); for a stored mode that is not active the caller's check is asked first
+and its error is the result, then a differing expected value is FailedPrecondition, and only when both pass is
+the mode removed (one REMOVE event carrying the stored record); a refused delete changes nothing and publishes
+nothing. -/
+theorem C19_delete_options (s : St) (id : String) (am : Bool) (d : DOpts) (hact : id ≠ s.active.id) :
+    (find s id = none → step s (.delete id am d) = step s (.delete id am {}) ∧
+      step s (.delete id am d) = (s, if am then .ok none else .err .notFound)) ∧
+    (∀ old, find s id = some old →
+      (∀ c, dcheckFails d old = some c →
+        step s (.delete id am d) = (s, .err c) ∧ modeEvents s (.delete id am d) = []) ∧
+      (dcheckFails d old = none → expectedFails d.expected old = true →
+        step s (.delete id am d) = (s, .err .failedPrecondition) ∧ modeEvents s (.delete id am d) = []) ∧
+      (dcheckFails d old = none → expectedFails d.expected old = false →
+        step s (.delete id am d) = ({ s with modes := eraseMode id s.modes }, .ok none) ∧
+        modeEvents s (.delete id am d) = [.remove old])) := by
+  refine ⟨?_, ?_⟩
+  · intro h
+    cases am <;> simp [step, deleteMode, hact, h]
+  · intro old h
+    refine ⟨?_, ?_, ?_⟩
+    · intro c hc
+      simp [step, modeEvents, emitDelete, deleteMode, hact, h, hc]
+    · intro hc he
+      simp [step, modeEvents, emitDelete, deleteMode, hact, h, hc, he]
+    · intro hc he
+      simp [step, modeEvents, emitDelete, deleteMode, hact, h, hc, he]
+
 /-- **C19_update_empty_id.** `UpdateMode` of the empty id names no mode: NotFound, nothing changes, whatever the
 options (fix eb62186: with `WithCreateIfAbsent` it used to create a mode under the id ""); the UpdateMode RPC
 answers InvalidArgument. -/
@@ -227,6 +257,11 @@ example : St.config? [mA, mB, mA] Mode.blank = none ∧ St.config? [mA, { mB wit
 
 def mC : Mode := Mode.mk4 "c" "tc" false none
 
+/-- a check used in the examples: refuses everything with NotFound -/
+def namedCheckD : String → Option (Mode → Option Code)
+  | "ct0" => some fun _ => some .notFound
+  | _ => none
+
 /-- two stored modes, `a` active -/
 def sAB : St := run St.init [.add mA, .add mB, .changeActive "a" 1]
 
@@ -257,9 +292,17 @@ example : (step sAB (.update { mC with normal := true } none { createIfAbsent :=
 /-- the record an upsert under a mask without `id` used to store had no id (before 2b5cf2c) -/
 example : (upsertRecordUnfixed mC (some ⟨[.title], false⟩)).id = "" := by decide
 example : (step St.init (.update mC (some ⟨[.title], false⟩) { createIfAbsent := true })).1.modes.map (·.id) = ["c"] := by decide
+/-- the CreateMode RPC with a request that carries no mode: InvalidArgument, nothing changes (`C19_rejected_unchanged`
+covers it like every other operation); before ca6ca35 the handler dereferenced the nil mode -/
+example : step sAB .sCreateNil = (sAB, .err .invalidArgument) ∧ modeEvents sAB .sCreateNil = [] ∧
+    (sCreateNilUnfixed sAB).2 = .panic := by decide
 /-- value preconditions: a mismatch is FailedPrecondition and changes nothing -/
 example : step sAB (.update { mB with title := "x" } none { expected := some mA }) = (sAB, .err .failedPrecondition) := by decide
-example : step sAB (.delete "b" false (some mA)) = (sAB, .err .failedPrecondition) := by decide
-example : (step sAB (.delete "b" false (some mB))).1.modes = [mA] := by decide
+example : step sAB (.delete "b" false { expected := some mA }) = (sAB, .err .failedPrecondition) := by decide
+example : (step sAB (.delete "b" false { expected := some mB })).1.modes = [mA] := by decide
+/-- a check that refuses comes before the expected value; on an absent id neither is consulted -/
+example : step sAB (.delete "b" false { expected := some mA, check := namedCheckD "ct0" }) = (sAB, .err .notFound) ∧
+    step sAB (.delete "c" true { expected := some mA, check := namedCheckD "ct0" }) = (sAB, .ok none) ∧
+    step sAB (.delete "c" false { expected := some mA, check := namedCheckD "ct0" }) = (sAB, .err .notFound) := by decide
 
 end ScVerif.C19
